@@ -223,3 +223,206 @@ pub fn wire_strlist(l: &[String]) -> String {
     for x in l { s.push(' '); s.push_str(&hex(x)); }
     s
 }
+
+/* ---------- whole templates ------------------------------------------------- */
+
+#[derive(Clone, Debug, PartialEq, Eq, Hash)]
+pub enum Section {
+    Lit(String),
+    Sec(Vec<Op>),
+}
+
+pub fn wire_section(s: &Section) -> String {
+    match s { Section::Lit(l) => format!("L {}", hex(l)), Section::Sec(ops) => format!("S {}", wire_ops(ops)) }
+}
+pub fn wire_template(dbg: bool, secs: &[Section]) -> String {
+    let mut s = format!("{} {}", if dbg { 1 } else { 0 }, secs.len());
+    for x in secs { s.push(' '); s.push_str(&wire_section(x)); }
+    s
+}
+pub fn sections_from_real(t: &string_pipeline::Template) -> Vec<Section> {
+    t.get_section_info().iter().map(|si| match si.section_type {
+        string_pipeline::SectionType::Literal => Section::Lit(si.content.clone().unwrap_or_default()),
+        string_pipeline::SectionType::Template => Section::Sec(si.operations.as_ref().map(|o| o.iter().map(op_from_real).collect()).unwrap_or_default()),
+    }).collect()
+}
+
+/* ---------- the documented spellings: an independent, AST-guided matcher -------
+   spelled_by(T, s): is the text s one of the documented ways of writing template T
+   (plus the short list of tolerated liberalities)?  Used as the oracle for "all of
+   the accepted text is accounted for".                                           */
+
+fn unesc(c: char) -> char { match c { 'n' => '\n', 't' => '\t', 'r' => '\r', o => o } }
+
+struct M<'a> { s: &'a [char], i: usize }
+impl<'a> M<'a> {
+    fn lit(&mut self, t: &str) -> bool {
+        let cs: Vec<char> = t.chars().collect();
+        if self.s.len() >= self.i + cs.len() && self.s[self.i..self.i + cs.len()] == cs[..] { self.i += cs.len(); true } else { false }
+    }
+    fn peek(&self) -> Option<char> { self.s.get(self.i).copied() }
+    /// an escaped argument whose decoding is exactly `val` (raw specials not allowed unescaped)
+    fn arg(&mut self, val: &str, allow_raw_specials: bool) -> bool {
+        for want in val.chars() {
+            match self.peek() {
+                Some('\\') => {
+                    match self.s.get(self.i + 1) { Some(x) if unesc(*x) == want => self.i += 2, _ => return false }
+                }
+                Some(c) if c == want && (allow_raw_specials || !matches!(c, ':' | '|' | '{' | '}')) => self.i += 1,
+                _ => return false,
+            }
+        }
+        true
+    }
+    fn num(&mut self, v: i128) -> bool {
+        let start = self.i;
+        let neg = if self.peek() == Some('-') { self.i += 1; true } else { false };
+        let ds = self.i;
+        let mut acc: i128 = 0;
+        while let Some(c) = self.peek() { if let Some(d) = c.to_digit(10) { acc = acc.saturating_mul(10).saturating_add(d as i128); self.i += 1; } else { break; } }
+        if self.i == ds { self.i = start; return false; }
+        if (if neg { -acc } else { acc }) == v { true } else { self.i = start; false }
+    }
+    fn range(&mut self, r: &Range) -> bool {
+        match r {
+            Range::Index(i) => self.num(*i),
+            Range::Range(a, b, inc) => {
+                if let Some(a) = a { if !self.num(*a) { return false; } }
+                if !self.lit(if *inc { "..=" } else { ".." }) { return false; }
+                if !*inc && self.peek() == Some('=') { return false; }
+                if let Some(b) = b { if !self.num(*b) { return false; } }
+                true
+            }
+        }
+    }
+    fn op(&mut self, op: &Op, in_map: bool) -> bool {
+        let save = self.i;
+        let ok = self.op_inner(op, in_map);
+        if !ok { self.i = save; }
+        ok
+    }
+    fn try_alt(&mut self, f: &mut dyn FnMut(&mut Self) -> bool) -> bool {
+        let save = self.i;
+        if f(self) { true } else { self.i = save; false }
+    }
+    fn at_op_end(&self) -> bool { matches!(self.peek(), Some('|') | Some('}') | None) }
+    fn op_inner(&mut self, op: &Op, in_map: bool) -> bool {
+        match op {
+            Op::Split(sep, r) => {
+                // split:ARG:RANGE  |  split:ARG (map only, full range)  |  shorthand (top level, sep " ")
+                if self.try_alt(&mut |m| m.lit("split:") && m.arg(sep, true) && m.lit(":") && m.range(r) && m.at_op_end()) { return true; }
+                if in_map && *r == Range::Range(None, None, false) && self.try_alt(&mut |m| m.lit("split:") && m.arg(sep, true) && m.at_op_end()) { return true; }
+                if !in_map && sep == " " && self.try_alt(&mut |m| m.range(r) && m.at_op_end()) { return true; }
+                false
+            }
+            Op::Join(s) => self.lit("join:") && self.arg(s, false),
+            Op::Replace(p, r, f) => self.lit("replace:s/") && self.lit(p) && self.lit("/") && self.lit(r) && self.lit("/") && self.lit(f),
+            Op::Upper => self.lit("upper"),
+            Op::Lower => self.lit("lower"),
+            Op::Trim(chars, d) => {
+                let ds = match d { TDir::Both => "both", TDir::Left => "left", TDir::Right => "right" };
+                if chars.is_empty() && *d == TDir::Both && self.try_alt(&mut |m| m.lit("trim") && m.at_op_end()) { return true; }
+                if chars.is_empty() && self.try_alt(&mut |m| m.lit("trim:") && m.lit(ds) && m.at_op_end()) { return true; }
+                if self.try_alt(&mut |m| m.lit("trim:") && m.arg(chars, false) && m.lit(":") && m.lit(ds) && m.at_op_end()) { return true; }
+                if *d == TDir::Both && self.try_alt(&mut |m| {
+                    let st = m.i + 5;
+                    if !(m.lit("trim:") && m.arg(chars, false) && m.at_op_end()) { return false; }
+                    let raw: String = m.s[st..m.i].iter().collect();
+                    !matches!(raw.as_str(), "left" | "right" | "both")
+                }) { return true; }
+                false
+            }
+            Op::Substring(r) => self.lit("substring:") && self.range(r),
+            Op::Append(s) => self.lit("append:") && self.arg(s, false),
+            Op::Prepend(s) => self.lit("prepend:") && self.arg(s, false),
+            Op::Surround(s) => (self.try_alt(&mut |m| m.lit("surround:")) || self.try_alt(&mut |m| m.lit("quote:"))) && self.arg(s, false),
+            Op::StripAnsi => self.lit("strip_ansi"),
+            Op::Filter(p) => self.lit("filter:") && self.lit(p),
+            Op::FilterNot(p) => self.lit("filter_not:") && self.lit(p),
+            Op::Slice(r) => self.lit("slice:") && self.range(r),
+            Op::Map(body) => {
+                if in_map || body.is_empty() { return false; }
+                if !self.lit("map:{") { return false; }
+                for (k, o) in body.iter().enumerate() {
+                    if k > 0 && !self.lit("|") { return false; }
+                    if !self.op(o, true) { return false; }
+                }
+                self.lit("}")
+            }
+            Op::Sort(d) => {
+                if *d == SDir::Desc { return self.lit("sort:desc"); }
+                if self.try_alt(&mut |m| m.lit("sort:asc") && m.at_op_end()) { return true; }
+                self.try_alt(&mut |m| m.lit("sort") && m.at_op_end())
+            }
+            Op::Reverse => self.lit("reverse"),
+            Op::Unique => self.lit("unique"),
+            Op::Pad(w, c, d) => {
+                let ds = match d { PDir::Both => "both", PDir::Left => "left", PDir::Right => "right" };
+                let cs = c.to_string();
+                if !(self.lit("pad:") && self.num(*w as i128)) { return false; }
+                // [:CHAR[:DIR]] ; tolerated: CHAR written as several characters (first one used)
+                if *c == ' ' && *d == PDir::Right && self.at_op_end() { return true; }
+                let pad_arg = |m: &mut Self| -> bool {
+                    if !m.arg(&cs, false) { return false; }
+                    // tolerated liberality: extra argument characters after the first
+                    loop { match m.peek() { Some('\\') => { if m.i + 1 < m.s.len() { m.i += 2; } else { return false; } } Some(':') | Some('|') | Some('}') | Some('{') | None => return true, Some(_) => m.i += 1 } }
+                };
+                if *d == PDir::Right && self.try_alt(&mut |m| m.lit(":") && pad_arg(m) && m.at_op_end()) { return true; }
+                self.try_alt(&mut |m| m.lit(":") && pad_arg(m) && m.lit(":") && m.lit(ds) && m.at_op_end())
+            }
+            Op::RegexExtract(p, g) => {
+                if !(self.lit("regex_extract:") && self.lit(p)) { return false; }
+                match g { None => true, Some(g) => self.lit(":") && self.num(*g as i128) }
+            }
+        }
+    }
+}
+
+/// is `text` (without the outer braces) a documented spelling of the pipeline `ops`?
+pub fn block_spelled_by(ops: &[Op], text: &str) -> bool {
+    let cs: Vec<char> = text.chars().collect();
+    let mut m = M { s: &cs, i: 0 };
+    if m.peek() == Some('!') { m.i += 1; }
+    for (k, o) in ops.iter().enumerate() {
+        if k > 0 && !m.lit("|") { return false; }
+        if !m.op(o, false) { return false; }
+    }
+    m.i == cs.len()
+}
+
+/// split a template text into literal / `${..}` text and `{..}` blocks the documented way
+/// (escape-aware brace matching), then match each block against the parsed operations
+pub fn template_spelled_by(secs: &[Section], text: &str) -> bool {
+    let cs: Vec<char> = text.chars().collect();
+    let mut i = 0;
+    let mut lit = String::new();
+    let mut k = 0;
+    let flush = |lit: &mut String, k: &mut usize| -> bool {
+        if lit.is_empty() { return true; }
+        let ok = matches!(secs.get(*k), Some(Section::Lit(l)) if l == lit);
+        *k += 1; lit.clear(); ok
+    };
+    while i < cs.len() {
+        if cs[i] == '{' {
+            let shell = lit.ends_with('$');
+            let mut depth = 1; let mut j = i + 1; let mut esc = false;
+            while j < cs.len() {
+                if !shell && esc { esc = false; }
+                else if !shell && cs[j] == '\\' { esc = true; }
+                else if cs[j] == '{' { depth += 1; }
+                else if cs[j] == '}' { depth -= 1; if depth == 0 { break; } }
+                j += 1;
+            }
+            if j >= cs.len() { return false; }
+            if shell { lit.extend(cs[i..=j].iter()); }
+            else {
+                if !flush(&mut lit, &mut k) { return false; }
+                let body: String = cs[i + 1..j].iter().collect();
+                match secs.get(k) { Some(Section::Sec(ops)) => if !block_spelled_by(ops, &body) { return false; }, _ => return false }
+                k += 1;
+            }
+            i = j + 1;
+        } else { lit.push(cs[i]); i += 1; }
+    }
+    flush(&mut lit, &mut k) && k == secs.len()
+}
